@@ -564,7 +564,12 @@ fn run_clone_cases(driver: &Driver, st: &mut Stream, cases: &[CloneCase]) {
         st.count(&format!("outcome={}", if oc.contains("err") { "some-err" } else if oc == "-" { "no-roots" } else { "all-ok" }));
         st.count(if has_cycle(g) { "graph=cyclic" } else { "graph=acyclic" });
         let nontrivial = g.values().any(|n| !n.k.is_empty() || n.a.is_some() || n.b.is_some());
-        st.case(&reqs[i], &model, &imp, nontrivial);
+        if model != imp {
+            // a disagreement record carries the document, so that it can be replayed
+            st.case(&format!("{} # {}", reqs[i], c.case_json()), &model, &imp, nontrivial);
+        } else {
+            st.case(&reqs[i], &model, &imp, nontrivial);
+        }
     }
 }
 
@@ -1018,7 +1023,11 @@ fn page_stream(driver: &Driver, seed: u64, n: u64) -> Stream {
         let typed = |o: u64| g.get(&o).map(|n| matches!(n.ty, NT::Res | NT::Form)).unwrap_or(false);
         let model = canon_model_page(&resp[i], &typed);
         st.count(if model.contains("err") { "outcome=some-err" } else { "outcome=all-ok" });
-        st.case(&reqs[i], &model, &imp, model.contains(':'));
+        if model != imp {
+            st.case(&format!("{} # {}", reqs[i], cases[i]), &model, &imp, model.contains(':'));
+        } else {
+            st.case(&reqs[i], &model, &imp, model.contains(':'));
+        }
     }
     st
 }
@@ -1937,11 +1946,39 @@ fn import_generated(seed: u64, thorough: bool) -> Oracle {
 
 // =====================================================================================================
 
+/// replay of a stored correspondence disagreement: `<request> # <case json>`
+fn replay_correspondence(driver: &Driver, stream: &str, text: &str) -> Stream {
+    let mut st = Stream::new(stream, true);
+    let (req, case) = match text.split_once(" # ") { Some(x) => x, None => { st.case(text, "replay: no case attached", "", false); return st; } };
+    let case: Value = serde_json::from_str(case).unwrap_or(Value::Null);
+    let resp = driver.ask(&[req.to_string()]);
+    let imp = match run_in_children(&[case.clone()], 20).pop() { Some(Ok(v)) => v.as_str().unwrap_or("bad-child-answer").to_string(), Some(Err(e)) => e, None => "not-run".into() };
+    let types = &case["types"];
+    let typed = |o: u64| matches!(types[o.to_string()].as_str().unwrap_or(""), "Res" | "Form");
+    let model = if case["kind"] == "page" { canon_model_page(&resp[0], &typed) } else { canon_model_clone(&resp[0], &parse_edges(case["roots"].as_str().unwrap_or("-")), &typed) };
+    st.case(text, &model, &imp, true);
+    st
+}
+
 pub fn run(driver: &Driver, seed: u64, thorough: bool, replay: Option<&serde_json::Value>) -> Report {
     if let Some(r) = replay {
         if r.get("child").is_some() {
             return child_main(r);
         }
+        let mut rep = Report::new("C20");
+        if let Some(case) = r.get("import") {
+            // an oracle failure: re-run exactly that import (in a child process)
+            let mut or = Oracle::new(r["stream"].as_str().unwrap_or("c20.import"));
+            let label = r["label"].as_str().unwrap_or("replay").to_string();
+            run_import_cases(&mut or, r["seed"].as_u64().unwrap_or(seed), r["stream"].as_str().unwrap_or("c20.import"),
+                vec![ImportCase { label, case: case.clone(), child: true, nontrivial: true }]);
+            rep.oracles.push(or);
+        } else if let Some(d) = r.get("disagreement") {
+            rep.streams.push(replay_correspondence(driver, d["stream"].as_str().unwrap_or("c20.replay"), d["request"].as_str().unwrap_or("")));
+        } else {
+            rep.notes.push("replay file not understood".into());
+        }
+        return rep;
     }
     let mut rep = Report::new("C20");
     rep.streams.push(clone_exhaustive(driver, if thorough { 3 } else { 2 }));
